@@ -1,6 +1,8 @@
 """C08 - Updates are idempotent, reads are fresh, history is append-only"""
 from pyvc.runner import func
 
+UPDATE_ALL = [func("bt.core.StrategyBase.update", variant=v) for v in ("flat", "paper", "nested", "nested-paper")]
+
 ID = "C08"
 META = {
     "assumptions": ['A-REAL', 'A-COMM', 'A-T', 'A-IND', 'A-DATA-NONE', 'A-CYTHON', 'A-SOLVER', 'A-ENGINE'],
@@ -8,14 +10,14 @@ META = {
 }
 MANIFEST_ENTRY = {
     "level_text": 'Deductive proof of the positional write frames and of security-level idempotence for all states.',
-    "level_note": "Reals not floats; idempotence of StrategyBase.update itself and freshness of the read accessors are planned next (DESIGN 4 C08 a,b) and not yet discharged; update variant 'flat'.",
+    "level_note": "Reals not floats; idempotence of StrategyBase.update itself and freshness of the read accessors are planned next (DESIGN 4 C08 a,b) and not yet discharged.",
     "technique": "contract-based deductive verification: VCs from the real AST (pyvc) discharged by z3/cvc5; loop invariants with ghost sums; lemmas over contract clauses",
 }
 
 
 def tasks(tier, seed):
     return [
-        func("bt.core.StrategyBase.update", variant="flat"),
+        *UPDATE_ALL,
         func("bt.core.SecurityBase.update"),
         func("bt.core.FixedIncomeSecurity.update"),
         func("bt.core.CouponPayingSecurity.update"),
